@@ -195,8 +195,16 @@ pub(super) fn prepare_call_parameters(
     let mut fn_args: proc_macro2::TokenStream = proc_macro2::TokenStream::new();
     let mut fn_arg_prep: proc_macro2::TokenStream = proc_macro2::TokenStream::new();
 
+    let mut used_idents: Vec<String> = Vec::with_capacity(parameters.len());
     for (parameter_name, parameter_type) in parameters {
-        let ident = syn::Ident::new(parameter_name, proc_macro2::Span::call_site());
+        // A parameter named like a Rust keyword (`type`, `match`, `self`, ...) cannot be used
+        // as a binding as it is: escape it, keeping the bindings of one function distinct.
+        let mut ident_name = escaped_rust_name(parameter_name.clone());
+        while used_idents.contains(&ident_name) {
+            ident_name.push('_');
+        }
+        used_idents.push(ident_name.clone());
+        let ident = syn::Ident::new(&ident_name, proc_macro2::Span::call_site());
         let ty = trustfall_type_to_rust_type(parameter_type);
         fn_params.extend(quote! {
             #ident: #ty,
